@@ -30,26 +30,34 @@ def metric_member(desc, tier, seed):
                 return out
         return Ev(b.dsg, encoder_type=SelChoiceEncoderType.COMPLETE)
 
-    spec = {}
-    ambiguous = []
-    for m in desc.metrics:
-        can_obj = m.dir is not None and m.name in always
+    # "exists in every architecture": a metric below the confirmed initial graph certainly does (it has to be eligible
+    # as objective); a metric outside some admissible closure certainly does not (it must not be an objective); for a
+    # metric that every architecture reaches only through options the statement ("only if") allows both readings
+    perm0 = set(specsem.closure(desc, {}))
+
+    def role_of(m, can_obj):
         can_con = m.dir is not None and m.ref is not None
         if m.type == 'NONE':
-            role = None
-        elif can_obj and can_con:
-            if m.type in ('OBJECTIVE', 'CONSTRAINT'):
-                role = m.type
-            else:
-                role = 'AMBIGUOUS'
-                ambiguous.append(m.name)
-        elif can_obj:
-            role = 'OBJECTIVE'
-        elif can_con:
-            role = 'CONSTRAINT'
+            return None
+        if can_obj and can_con:
+            return m.type if m.type in ('OBJECTIVE', 'CONSTRAINT') else 'AMBIGUOUS'
+        if can_obj:
+            return 'OBJECTIVE'
+        if can_con:
+            return 'CONSTRAINT'
+        return None
+    allowed = {}
+    for m in desc.metrics:
+        if m.dir is None or m.name not in always:
+            opts = [False]
+        elif m.name in perm0:
+            opts = [True]
         else:
-            role = None
-        spec[m.name] = role
+            opts = [False, True]
+        allowed[m.name] = {role_of(m, c) for c in opts}
+    must_reject = [n for n, r in allowed.items() if r == {'AMBIGUOUS'}]
+    may_reject = [n for n, r in allowed.items() if 'AMBIGUOUS' in r]
+    spec = {n: r for n, r in allowed.items()}
     for mode in ('complete', 'partial', 'nan', 'zero'):
         wit = ['COMPLETE', mode]
         nt = (desc.label, mode)
@@ -58,15 +66,20 @@ def metric_member(desc, tier, seed):
             objs = ev.objectives
             cons = ev.constraints
         except RuntimeError as e:
-            ctx.check('C17.ambiguous-undeclared-rejected', bool(ambiguous), wit, f'classification raised {e} but no metric is ambiguous', nt)
+            ctx.check('C17.ambiguous-undeclared-rejected', bool(may_reject), wit, f'classification raised {e} but no metric is ambiguous', nt)
             continue
-        ctx.check('C17.ambiguous-undeclared-rejected', not ambiguous, wit, f'metrics {ambiguous} are ambiguous and undeclared but no error was raised', nt)
+        ctx.check('C17.ambiguous-undeclared-rejected', not must_reject, wit, f'metrics {must_reject} are ambiguous and undeclared but no error was raised', nt)
         on = [b.name_of[o.node] for o in objs]
         cn = [b.name_of[c.node] for c in cons]
-        ctx.check('C17.objectives-per-contract', on == sorted(k for k, r in spec.items() if r == 'OBJECTIVE'), wit,
-                  f'objectives {on}, contract {sorted(k for k, r in spec.items() if r == "OBJECTIVE")}', nt)
-        ctx.check('C17.constraints-per-contract', cn == sorted(k for k, r in spec.items() if r == 'CONSTRAINT'), wit,
-                  f'constraints {cn}, contract {sorted(k for k, r in spec.items() if r == "CONSTRAINT")}', nt)
+        # per metric: the observed role has to be one the statement allows
+        observed = {k: ('OBJECTIVE' if k in on else 'CONSTRAINT' if k in cn else None) for k in spec}
+        wrong = [k for k, r in spec.items() if observed[k] not in r]
+        wrong_o = sorted(k for k in wrong if observed[k] == 'OBJECTIVE' or 'OBJECTIVE' in spec[k])
+        wrong_c = sorted(k for k in wrong if k not in wrong_o)
+        ctx.check('C17.objectives-per-contract', not wrong_o and on == sorted(on), wit,
+                  f'objectives {on}; roles allowed by the contract {dict((k, sorted(map(str, r))) for k, r in spec.items())}; wrong: {wrong_o}', nt)
+        ctx.check('C17.constraints-per-contract', not wrong_c and cn == sorted(cn), wit,
+                  f'constraints {cn}; roles allowed by the contract {dict((k, sorted(map(str, r))) for k, r in spec.items())}; wrong: {wrong_c}', nt)
         X, _ = all_vectors(ev.des_vars, cap=64)
         for x in X:
             inst, xi, ai = ev.get_graph(list(x))
